@@ -37,6 +37,7 @@ class Contract:
     defaults: Dict[str, str] = field(default_factory=dict)
     defs: Dict[str, str] = field(default_factory=dict)          # named lambdas usable in the clauses
     ghost_args: Dict[str, Dict[str, str]] = field(default_factory=dict)   # callee short name -> {callee ghost name: expression in the caller}
+    func_params: Dict[str, List[str]] = field(default_factory=dict)   # function-valued parameter -> builtin names it may be bound to (verified once per choice)
     merge_ifs: bool = False                                    # merge the two branches of an if when both fall through
     ghost_init: Dict[str, str] = field(default_factory=dict)    # initial values of ghost variables (prover's choice; assumed at entry only)
 
@@ -69,6 +70,7 @@ class Registry:
         self.specs: Dict[str, Callable] = {}          # spec functions: python callables over SVs (engine, *args)
         self.axioms: List[Callable] = []
         self.lemmas: List[dict] = []
+        self.extra_fields: Dict[str, str] = {}      # "Class.field" -> type string, for plain (non-dataclass) classes
 
     def contract(self, qname: str, **kw) -> Contract:
         req = kw.pop("requires", {})
@@ -130,5 +132,6 @@ class Registry:
             mod.ghost_code = self.ghost_code
             mod.spec = self.spec
             mod.lemma = self.lemma
+            mod.fields = self.extra_fields.update
             spec.loader.exec_module(mod)
         return self
